@@ -58,6 +58,28 @@ def jkey(x):
     return json.dumps(x, default=lambda o: json.loads(json.dumps(o, cls=Serializer)))
 
 
+_RESOLVABLE = {}
+
+
+def op_key(x):
+    """operator entry of a ParentOperator: a string, or an object / function written as a class-path dict.
+    A class path that cannot be imported is dropped by the decoder (the entry is loaded as a plain dict):
+    such tags are not part of the key"""
+    def norm(t):
+        if isinstance(t, dict):
+            cp = t.get('_class_path')
+            if cp is not None:
+                if cp not in _RESOLVABLE:
+                    _RESOLVABLE[cp] = observed_class(cp) is not None
+                if not _RESOLVABLE[cp]:
+                    t = {k: v for k, v in t.items() if k != '_class_path'}
+            return {k: norm(v) for k, v in t.items()}
+        if isinstance(t, list):
+            return [norm(v) for v in t]
+        return t
+    return json.dumps(norm(json.loads(jkey(x))))
+
+
 def num_key(v):
     return None if v is None else repr(v)
 
@@ -201,7 +223,7 @@ def ind_record(o, tok, ref_of):
         parents = []
         for p in po.parent_individuals:
             parents.append(['s', tok('uid', p)] if isinstance(p, str) else ['r', ref_of(p)])
-        op = {'type': tok('type', jkey(po.type_)), 'ops': [tok('op', jkey(x)) for x in po.operators],
+        op = {'type': tok('type', jkey(po.type_)), 'ops': [tok('op', op_key(x)) for x in po.operators],
               'uid': tok('uid', str(po.uid)), 'parents': parents}
     if not isinstance(o.metadata, dict):
         raise ShapeError('metadata is %r' % type(o.metadata))
@@ -294,7 +316,7 @@ def parse_eind(i, tok, legacy=False):
             raise ShapeError('parent operator %r' % list(po))
         if not all(isinstance(u, str) for u in po['parent_individuals']):
             raise ShapeError('parents are not uid strings')
-        op = {'type': tok('type', jkey(po['type_'])), 'ops': [tok('op', jkey(x)) for x in po['operators']],
+        op = {'type': tok('type', jkey(po['type_'])), 'ops': [tok('op', op_key(x)) for x in po['operators']],
               'uid': tok('uid', str(po['uid'])), 'parents': [tok('uid', u) for u in po['parent_individuals']]}
     ng = i['native_generation']
     if ng is not None and not (isinstance(ng, int) and ng >= 0):
